@@ -44,6 +44,10 @@ let report_spec ~prop ~pred ~detail =
     Printf.printf "SPEC hid=%s op=%d prop=%s pred=%s detail=%s desc=[%s] hdr=[%s]\n" !hid !opno prop pred detail !cur !header end
 
 let histo : (string, int) Hashtbl.t = Hashtbl.create 64
+(* samples for the extraction-independent cross-check: "XC <Coq term> === <Coq term>" (every k-th case) *)
+let xc_seen = ref 0
+let coq_bytes l = "[" ^ String.concat "; " (List.map (fun b -> string_of_int (int_of_n b)) l) ^ "]"
+let xc lhs rhs = incr xc_seen; if !xc_seen mod 97 = 1 && !xc_seen < 97 * 60 then Printf.printf "XC %s === %s\n" lhs rhs
 let bump_count key = Hashtbl.replace histo key (1 + (try Hashtbl.find histo key with Not_found -> 0))
 let histories = ref 0
 let ops_total = ref 0
@@ -145,6 +149,9 @@ let () =
               hid := "decoders"; header := ""; cur := "lossy " ^ inp;
               let b = List.nth secs 1 and s = List.nth secs 2 in
               if b <> s then report_spec ~prop:"C14" ~pred:"from_utf8_lossy_like_std" ~detail:(inp ^ ":" ^ b ^ "_vs_std_" ^ s);
+              let inb = bytes_of_hex inp in
+              xc ("from_utf8_lossy actual_width " ^ coq_bytes inb) (coq_bytes (from_utf8_lossy actual_width inb));
+              xc ("utf8_lossy_spec " ^ coq_bytes inb) (coq_bytes (utf8_lossy_spec inb));
               let m = hex_of_bytes (from_utf8_lossy actual_width (bytes_of_hex inp)) in
               if m <> b then report_mismatch ~field:"lossy" ~model:m ~impl:(inp ^ ":" ^ b);
               (* the implementation-independent specification against std itself *)
@@ -158,6 +165,7 @@ let () =
                  if ok <> s then report_spec ~prop:"C14" ~pred:"from_utf8_like_std" ~detail:(inp ^ ":" ^ ok ^ "_vs_std_" ^ s);
                  if same <> "1" then report_spec ~prop:"C14" ~pred:"from_utf8_keeps_bytes" ~detail:inp;
                  let m = valid_utf8 (bytes_of_hex inp) in
+                 xc ("valid_utf8 " ^ coq_bytes (bytes_of_hex inp)) (string_of_bool m);
                  if m <> (ok = "1") then report_mismatch ~field:"from_utf8" ~model:(string_of_bool m) ~impl:(inp ^ ":" ^ ok)
                | _ -> ())
             | _ -> ())
